@@ -117,7 +117,7 @@ func (s *c15State) exprSig(n *qNode, count bool) string {
 	}
 	emptyBetween := false
 	n.walk(func(x *qNode) {
-		if x.Kind == "rowint" && x.Op == "between" && c15EmptyInterval(x) {
+		if x.Kind == "rowint" && x.Op == "between" && mEmptyInterval(x) {
 			emptyBetween = true
 		}
 	})
@@ -149,38 +149,6 @@ func (s *c15State) exprSig(n *qNode, count bool) string {
 		return "timerange-after-clear" + suffix
 	}
 	return "expr/" + strings.Join(n.kinds(), "+") + suffix
-}
-
-// c15EmptyInterval reports whether a chained comparison denotes no integer at all.
-func c15EmptyInterval(x *qNode) bool {
-	lo, hi := x.P1, x.P2
-	if !x.LoEq {
-		lo++
-	}
-	if !x.HiEq {
-		hi--
-	}
-	return lo > hi
-}
-
-// typeTag names the field class used in mutation/state signatures.
-func (s *c15State) typeTag(f *mField) string {
-	if f.Type == "time" && f.NoStd {
-		if s.env.Nodes > 1 {
-			return "cluster-time-nostandard"
-		}
-		return "time-nostandard"
-	}
-	return f.Type
-}
-
-// beyond reports whether predicate p is at/beyond the bit-depth range of the
-// field; on a cluster the smallest per-shard depth decides (each node keeps its own depth).
-func (s *c15State) beyond(f *mField, p int64) bool {
-	if s.env.Nodes > 1 {
-		return mBeyond(f.minShardDepth(), p)
-	}
-	return f.beyondDepth(p)
 }
 
 func c15Inequality(op string) bool {
@@ -254,7 +222,7 @@ func (s *c15State) leaf() *qNode {
 				}
 			}
 		}
-		if op == "between" && c15EmptyInterval(n) && !rng.Chance(1, 5) {
+		if op == "between" && mEmptyInterval(n) && !rng.Chance(1, 5) {
 			n.LoEq, n.HiEq = true, true // keep the known empty-interval class rare
 		}
 		return n
@@ -567,7 +535,7 @@ func (s *c15State) mutate() {
 			if x.Kind == "rowint" && (x.Op == "<" || x.Op == ">") && (x.P1 == 0 || x.P1 == -1) {
 				bad = true
 			}
-			if x.Kind == "rowint" && x.Op == "between" && c15EmptyInterval(x) {
+			if x.Kind == "rowint" && x.Op == "between" && mEmptyInterval(x) {
 				bad = true
 			}
 			if ff := s.m.Fields[x.Field]; ff != nil && x.Kind == "rowint" && c15Inequality(x.Op) && (s.beyond(ff, x.P1) || (x.Op == "between" && s.beyond(ff, x.P2))) {
